@@ -2,13 +2,21 @@
    write(A); write(B, overwrite=o1); write(C, overwrite=o2) ... : result class and abstract dump after every call. *)
 From Geff Require Export Base Dtype Vlen Tree Validate Write Read.
 Open Scope list_scope.
+(* entry-point histories (IEntryHist): every call is an `ecall` of Entry.v -- write_arrays, write_dicts / a backend writer called
+   directly, geff.write, from_ctc_to_geff (dataset + label volume), from_trackmate_xml_to_geff (document) *)
+From Geff Require Export GraphVal Ctc TrackMate Entry.
 
 Record call := mkcall { c_g : wgraph; c_md : smeta; c_validate : bool; c_ov : bool }.
 (* IApiHist: the same history through geff.write (graph-library writers): the wrapper's guard in front of write_arrays' guard;
    each call carries the arrays and metadata the backend handed to write_arrays (captured by the harness) *)
 Inductive input := IHist (k : skind) (pre : option znode) (calls : list call)
-                 | IApiHist (k : skind) (pre : option znode) (calls : list call).
-Inductive obs := OHist (steps : list (res unit * option znode)).
+                 | IApiHist (k : skind) (pre : option znode) (calls : list call)
+                 | IEntryHist (pre : option znode) (ecalls : list ecall).
+(* the target after a call of an entry-point history: its abstract dump, or -- for a directory that exists without being a zarr
+   group (the label volume of a CTC conversion written into a geff directory that does not exist yet) -- its entries *)
+Inductive eobs := ETree (t : option znode) | EDir (names : list string).
+Inductive obs := OHist (steps : list (res unit * option znode))
+               | OEntry (esteps : list (res unit * eobs)).
 
 Fixpoint play (k : skind) (st : option znode) (cs : list call) : list (res unit * option znode) :=
   match cs with
@@ -22,12 +30,39 @@ Fixpoint play_api (k : skind) (st : option znode) (cs : list call) : list (res u
   | c :: r => let (st', x) := run (api_write k (c_g c) (c_md c) (c_validate c) (c_ov c)) st in
               (x, st') :: play_api k st' r
   end.
+Fixpoint play_entry (st : option znode) (cs : list ecall) : list (res unit * eobs) :=
+  match cs with
+  | [] => []
+  | c :: r => let (st', x) := run (e_run c) st in (x, ETree st') :: play_entry st' r
+  end.
 Definition model (i : input) : obs :=
-  match i with IHist k pre cs => OHist (play k pre cs) | IApiHist k pre cs => OHist (play_api k pre cs) end.
+  match i with
+  | IHist k pre cs => OHist (play k pre cs)
+  | IApiHist k pre cs => OHist (play_api k pre cs)
+  | IEntryHist pre cs => OEntry (play_entry pre cs)
+  end.
 Definition unit_eqb (a b : unit) : bool := true.
 Definition step_eqb (a b : res unit * option znode) : bool :=
   res_eqb unit_eqb (fst a) (fst b) && otree_eqb (snd a) (snd b).
-Definition obs_eqb (a b : obs) : bool := match a, b with OHist x, OHist y => list_eqb step_eqb x y end.
+(* trees are compared with the opaque metadata tokens blanked on both sides (Entry.zero_tok) *)
+Definition estate_eqb (m o : eobs) : bool :=
+  match m, o with
+  | ETree t, ETree t' => otree_eqb (zero_tok t) (zero_tok t')
+  | ETree (Some (ZG [] ch)), EDir names =>
+      Nat.eqb (length ch) (length names) && forallb (fun kv => smem (fst kv) names) ch
+  | _, _ => false
+  end.
+Definition estep_eqb (a b : res unit * eobs) : bool := res_eqb unit_eqb (fst a) (fst b) && estate_eqb (snd a) (snd b).
+Definition obs_eqb (a b : obs) : bool :=
+  match a, b with
+  | OHist x, OHist y => list_eqb step_eqb x y
+  | OEntry x, OEntry y => list_eqb estep_eqb x y
+  | _, _ => false
+  end.
 Definition check (c : input * obs) : bool := obs_eqb (model (fst c)) (snd c).
 Definition diag (c : input * obs) : list bool :=
-  match model (fst c), snd c with OHist x, OHist y => map (fun p => step_eqb (fst p) (snd p)) (combine x y) end.
+  match model (fst c), snd c with
+  | OHist x, OHist y => map (fun p => step_eqb (fst p) (snd p)) (combine x y)
+  | OEntry x, OEntry y => map (fun p => estep_eqb (fst p) (snd p)) (combine x y)
+  | _, _ => [false]
+  end.
